@@ -17,6 +17,7 @@ import EaselModel.Shuffle.LemmasIndex
 import EaselModel.Shuffle.LemmasStorage
 import EaselModel.Shuffle.LawfulRat
 import EaselModel.Shuffle.MarkovRat
+import EaselModel.Shuffle.IeeeCarrier
 /-! # C18 — property theorems (statements + glue only; lemmas live in Shuffle/*.lean)
 
 Every theorem quantifies over every input and every generator state `r : Rng` (hence every seed and every history of
@@ -864,6 +865,55 @@ theorem sampleDirty_sampled_vector_zeros (K Kp : Nat) (h : K + 3 ≤ Kp) (r : Rn
     (dirtyP K Kp r).1.size = Kp ∧ (dirtyP K Kp r).1[K]? = some 0.0 ∧ (dirtyP K Kp r).1[Kp - 2]? = some 0.0 ∧
       (dirtyP K Kp r).1[Kp - 1]? = some 0.0 :=
   dirtyP_zeros K Kp h r
+
+/-! ## the binary64 facts L1–L5 over an IEEE-754 carrier (round 6)
+
+`LawfulCNum`'s fields are now stated so that each holds for EVERY binary64 value (the former `a + 0.0 = a` fails at `-0.0`), and
+they are PROVED — not trusted — for `Ieee ρ`: NaN, ±inf, ±0 and the non-zero representable rationals, operations = the exact
+result delivered through ANY monotone idempotent rounding `ρ` whose representable numbers include the 33-bit integers and the
+fractions `k/2^32`, special values by the tables of IEEE 754 §6 (`IeeeCarrier.lean`). So every support theorem of the section
+`numeric` holds verbatim for `α = Ieee ρ`, and the "never `esl_fatal`" theorem holds for it without any hypothesis on the
+arithmetic. What is left to trust about C `double` / Lean `Float` is that they ARE such a carrier (round-to-nearest-even on 53-bit
+significands) — one statement; the op `fplaws` still evaluates the five facts on every executed value, in C and in Lean. -/
+
+/-- **L1–L4** for every value of the carrier, signed zeros / infinities / NaN included, for every monotone rounding -/
+theorem ieee_carrier_lawful (ρ : Rounding) : LawfulCNum (Ieee ρ) := ieee_lawful ρ
+
+/-- **L5**: `norm / norm = 1.0` for every finite non-zero `norm`, and `esl_random() = x / 2^32 < 1.0` for every 32-bit `x` -/
+theorem ieee_L5 (ρ : Rounding) :
+    (∀ (a : Ieee ρ) (q : ℚ), a.1 = .fin q → CNum.div a a = (CNum.one : Ieee ρ)) ∧
+    (∀ x : Nat, x < 4294967296 → CNum.lt (CNum.div (CNum.ofNat x) (CNum.ofNat 4294967296) : Ieee ρ) CNum.one = true) :=
+  ⟨ieee_div_self ρ, ieee_random_lt_one ρ⟩
+
+/-- i.i.d. generation in ROUNDED arithmetic: `L` symbols, each of non-zero probability (an instance of `iid_support`; `-0.0` is
+    not `CNum.zero`, but an entry `-0.0` is never chosen either: `iid_support_ieee_negzero`) -/
+theorem iid_support_ieee (ρ : Rounding) (p : List (Ieee ρ)) (L : Nat) (r : Rng) (out : Array Nat)
+    (h : (iidLoop p L r #[]).1 = some out) : out.size = L ∧ ∀ k ∈ out, ∃ q, p[k]? = some q ∧ q ≠ CNum.zero :=
+  iid_support p L r out h
+
+/-- … at full strength for binary64's two zeros: no emitted symbol has probability `+0.0` OR `-0.0` (`p[k] == 0.0` in C) -/
+theorem iid_support_ieee_negzero (ρ : Rounding) (p : List (Ieee ρ)) (L : Nat) (r : Rng) (out : Array Nat)
+    (h : (iidLoop p L r #[]).1 = some out) : out.size = L ∧ ∀ k ∈ out, ∃ q, p[k]? = some q ∧ ¬ IsZero ρ q := by
+  have := iidLoop_support_notZ (IsZero ρ) (ieee_add_zero_cmp ρ) p
+    (fun x => LawfulCNum.not_lt_zero_div x 4294967296 _) L r #[] out h (by simp)
+  simpa using this
+
+/-- **never `esl_fatal`, in rounded arithmetic**: whatever the rounding, if the vector's computed sum is a finite non-zero value,
+    `esl_rsq_IID / fIID / xIID / xfIID` return — entries of any sign, zeros, even NaN entries are allowed as long as the sum is finite -/
+theorem iid_never_fatal_ieee (ρ : Rounding) (p : List (Ieee ρ)) (hp : p ≠ []) (q : ℚ)
+    (hnorm : (p.foldl CNum.add CNum.zero).1 = .fin q) (L : Nat) (r : Rng) : ∃ out, (iidLoop p L r #[]).1 = some out :=
+  iidLoop_total_abs p hp (ieee_div_self ρ _ q hnorm) (ieee_random_lt_one ρ) L r #[]
+
+/-- non-vacuity: a rounding that really rounds (half up to multiples of `2^-32`, overflow above `2^32`); `1/3` is not representable;
+    a sum in it; the chooser on `[1/3, 1/3, 1/3]` (computed sum `4294967295/4294967296`, not `1`) with roll `1/2` -/
+example : Rounding := gridRounding
+example : (CNum.div (CNum.ofNat 1) (CNum.ofNat 3) : Ieee gridRounding).1 = .fin (1431655765 / 4294967296) := by decide +kernel
+example : (([CNum.ofNat 1, CNum.ofNat 3] : List (Ieee gridRounding)).foldl CNum.add CNum.zero).1 = .fin 4 := by decide +kernel
+example : let t : Ieee gridRounding := CNum.div (CNum.ofNat 1) (CNum.ofNat 3)
+    ([t, t, t].foldl CNum.add CNum.zero).1 = .fin (4294967295 / 4294967296) ∧
+    dchoose (CNum.div (CNum.ofNat 1) (CNum.ofNat 2)) [t, t, t] = some 1 := by decide +kernel
+/-- the law that was wrong for binary64: `-0.0 + 0.0` is `+0.0`, not `-0.0` (so `a + 0.0 = a` is not a law), while the comparison form holds -/
+example : Raw.add exactRounding (.zero true) (.zero false) = .zero false ∧ Raw.zero true ≠ Raw.zero false := by decide
 
 /-- non-vacuity: the rationals are a lawful number type, so the theorems above apply to the code read in exact arithmetic -/
 example : LawfulCNum ℚ := inferInstance
